@@ -111,3 +111,7 @@ Definition is_state_pred (u : bdd) : bool :=
 End Arena.
 
 Arguments do_while nc nx ny {C E} fuel body key c.
+
+(* Python's enumerate(l), counting from i *)
+Fixpoint enumerate {A} (i : nat) (l : list A) : list (nat * A) :=
+  match l with [] => [] | a :: r => (i, a) :: enumerate (Nat.succ i) r end.
